@@ -213,12 +213,14 @@ theorem joinRaw_append (a b : List PField) : joinRaw (a ++ b) = joinRaw a ++ joi
 
 /-- what decoding the bytes that ONE slot contributed does to a state in which that slot
     is still fresh (and, if the slot emitted anything, its oneof group is still unselected) -/
-def SlotStep (S : Schema) (rec : Loader) (d : MsgD) (k : Nat) (f : FieldD) (hid sel : Bool) (v : Val) : Prop :=
+def SlotStep (S : Schema) (rec : Loader) (d : MsgD) (R : FieldD → Val → Val → Prop)
+    (k : Nat) (f : FieldD) (hid sel : Bool) (v : Val) : Prop :=
   ∀ (st : MState) (b : Bytes), dumpSlot S f hid sel v = .ok b → b.length < 2 ^ 64 → k < st.slots.length → st.onWire = true →
     st.slots.getD k .ph = freshVal f →
     (b ≠ [] → (∀ g, f.group = some g → st.cur.getD g Option.none = Option.none) ∧ MatesUnset d.fields st.slots k f) →
-    ∃ pfs, (∀ pf ∈ pfs, Parsed pf) ∧ joinRaw pfs = b ∧
-      foldFields S rec d st pfs = .ok (if b = [] then st else afterStore st k f v)
+    ∃ pfs v', (∀ pf ∈ pfs, Parsed pf) ∧ joinRaw pfs = b ∧
+      (b ≠ [] → R f v v' ∧ dumpSlot S f hid sel v' = .ok b) ∧
+      foldFields S rec d st pfs = .ok (if b = [] then st else afterStore st k f v')
 
 /-- the original message, as far as the fold needs it -/
 structure MsgShape (S : Schema) (d : MsgD) (sl : List Val) (cur : List (Option Nat)) : Prop where
@@ -236,13 +238,17 @@ structure MsgShape (S : Schema) (d : MsgD) (sl : List Val) (cur : List (Option N
     dumpSlot S f (hidden f i cur) true (sl.getD i .ph) = .ok b → b ≠ []
 
 /-- state of the decoder after the bytes of slots `< k` -/
-structure GI (S : Schema) (d : MsgD) (sl : List Val) (cur : List (Option Nat)) (k : Nat) (st : MState) : Prop where
+structure GI (S : Schema) (d : MsgD) (R : FieldD → Val → Val → Prop) (sl : List Val) (cur : List (Option Nat))
+    (k : Nat) (st : MState) : Prop where
   len : st.slots.length = d.fields.length
   curlen : st.cur.length = d.nGroups
   ow : st.onWire = true
   fresh : ∀ j f, k ≤ j → d.fields[j]? = some f → st.slots.getD j .ph = freshVal f
   done : ∀ j f, j < k → d.fields[j]? = some f →
-    st.slots.getD j .ph = sl.getD j .ph
+    (R f (sl.getD j .ph) (st.slots.getD j .ph)
+      ∧ dumpSlot S f (hidden f j cur) (selectedInGroup f j cur) (st.slots.getD j .ph)
+          = dumpSlot S f (hidden f j cur) (selectedInGroup f j cur) (sl.getD j .ph)
+      ∧ dumpSlot S f (hidden f j cur) (selectedInGroup f j cur) (sl.getD j .ph) ≠ .ok [])
     ∨ (st.slots.getD j .ph = freshVal f
         ∧ dumpSlot S f (hidden f j cur) (selectedInGroup f j cur) (sl.getD j .ph) = .ok [])
   cur : ∀ g, g < d.nGroups → st.cur.getD g Option.none =
@@ -259,14 +265,15 @@ theorem hidden_empty (S : Schema) (f : FieldD) (sel : Bool) (v : Val) : dumpSlot
   | str s => cases s <;> rw [dumpSlot] <;> first | rfl | (intros; contradiction) | (intro h; injection h with h; cases h)
   | _ => rw [dumpSlot] <;> first | rfl | (intros; contradiction)
 
-theorem slots_fold (S : Schema) (rec : Loader) (d : MsgD) (sl : List Val) (cur : List (Option Nat))
+theorem slots_fold (S : Schema) (rec : Loader) (d : MsgD) (R : FieldD → Val → Val → Prop)
+    (sl : List Val) (cur : List (Option Nat))
     (hm : MsgShape S d sl cur)
     (hsteps : ∀ k f v, d.fields[k]? = some f → sl[k]? = some v →
-      SlotStep S rec d k f (hidden f k cur) (selectedInGroup f k cur) v) :
-    ∀ (vs : List Val) (k : Nat) (st : MState) (out : Bytes), vs = sl.drop k → GI S d sl cur k st →
+      SlotStep S rec d R k f (hidden f k cur) (selectedInGroup f k cur) v) :
+    ∀ (vs : List Val) (k : Nat) (st : MState) (out : Bytes), vs = sl.drop k → GI S d R sl cur k st →
       dumpSlots S d.fields cur k vs = .ok out → out.length < 2 ^ 64 →
       ∃ pfs st', (∀ pf ∈ pfs, Parsed pf) ∧ joinRaw pfs = out ∧ foldFields S rec d st pfs = .ok st'
-        ∧ GI S d sl cur (k + vs.length) st' ∧ st'.unknown = st.unknown ∧ (st.onWire = true → st'.onWire = true) := by
+        ∧ GI S d R sl cur (k + vs.length) st' ∧ st'.unknown = st.unknown ∧ (st.onWire = true → st'.onWire = true) := by
   intro vs
   induction vs with
   | nil =>
@@ -317,16 +324,20 @@ theorem slots_fold (S : Schema) (rec : Loader) (d : MsgD) (sl : List Val) (cur :
             have hsel := selected_of_not_hidden f k g cur hg hnh
             have hsD : st.slots.getD j .ph = s := by simp [List.getD_eq_getElem?_getD, hsj]
             have hfo : fj.optional = false := hm.grpopt fj (List.mem_of_getElem? hfj) (by simp [hgj])
-            have horig : sl.getD j .ph = Val.ph := hm.inv j fj g hfj hgj (by rw [hsel]; intro e; injection e with e; exact hne' e.symm)
+            have _horig : sl.getD j .ph = Val.ph := hm.inv j fj g hfj hgj (by rw [hsel]; intro e; injection e with e; exact hne' e.symm)
             by_cases hjk : k ≤ j
             · rw [← hsD, hgi.fresh j fj hjk hfj]; simp [freshVal, hfo]
             · rcases hgi.done j fj (by omega) hfj with h1 | h1
-              · rw [← hsD, h1, horig]
+              · -- an unselected member emits nothing: the first alternative is impossible
+                have hhj : hidden fj j cur = true := by
+                  unfold hidden; rw [hgj]; simp only; rw [hsel]
+                  simp; intro e; exact hne' e.symm
+                exact absurd (by rw [hhj]; exact hidden_empty S fj _ _) h1.2.2
               · rw [← hsD, h1.1]; simp [freshVal, hfo]
-        obtain ⟨pfs1, hp1, hj1, hfold1⟩ := hsteps k f v hf hv st b hb hbl (by rw [hgi.len]; exact hkf) hgi.ow
+        obtain ⟨pfs1, v', hp1, hj1, hrel1, hfold1⟩ := hsteps k f v hf hv st b hb hbl (by rw [hgi.len]; exact hkf) hgi.ow
           (hgi.fresh k f (Nat.le_refl k) hf) hpre
         -- the state after this slot satisfies the invariant for k+1
-        have hgi' : GI S d sl cur (k + 1) (if b = [] then st else afterStore st k f v) := by
+        have hgi' : GI S d R sl cur (k + 1) (if b = [] then st else afterStore st k f v') := by
           by_cases hbe : b = []
           · rw [if_pos hbe]
             refine ⟨hgi.len, hgi.curlen, hgi.ow, fun j fj hj hfj => hgi.fresh j fj (by omega) hfj, ?_, ?_⟩
@@ -375,8 +386,11 @@ theorem slots_fold (S : Schema) (rec : Loader) (d : MsgD) (sl : List Val) (cur :
                 exact hgi.done j fj hjk hfj
               · have : j = k := by omega
                 subst this
+                rw [hf] at hfj; injection hfj with hfj; subst hfj
                 left
                 rw [getD_setAt_self _ _ _ (by rw [hgi.len]; exact hkf), hvD]
+                obtain ⟨hr, hd'⟩ := hrel1 hbe
+                exact ⟨hr, by rw [hd', hb], by rw [hb]; intro e; injection e with e; exact hbe e⟩
             · intro g hgn
               simp only [afterStore]
               cases hfg : f.group with
@@ -491,14 +505,15 @@ def UnkOk (d : MsgD) (unk : Bytes) : Prop :=
     original value was not emitted at all — the unset default, and encodes to the same bytes -/
 theorem roundtrip_of_steps (S : Schema) (c : Nat) (d : MsgD) (hd : S[c]? = some d)
     (sl : List Val) (ow : Bool) (unk : Bytes) (cur : List (Option Nat))
+    (R : FieldD → Val → Val → Prop)
     (hm : MsgShape S d sl cur) (hunk : UnkOk d unk)
-    (hsteps : ∀ (rec : Loader) k f v, d.fields[k]? = some f → sl[k]? = some v →
-      SlotStep S rec d k f (hidden f k cur) (selectedInGroup f k cur) v)
-    (bs : Bytes) (hdump : dumpVal S (.msg c sl ow unk cur) = .ok bs) (hblen : bs.length < 2 ^ 64) :
+    (bs : Bytes) (hdump : dumpVal S (.msg c sl ow unk cur) = .ok bs) (hblen : bs.length < 2 ^ 64)
+    (hsteps : ∀ k f v, d.fields[k]? = some f → sl[k]? = some v →
+      SlotStep S (loadInto S bs.length) d R k f (hidden f k cur) (selectedInGroup f k cur) v) :
     ∃ sl', parse S c bs = .ok (.msg c sl' true unk cur)
       ∧ sl'.length = sl.length
       ∧ (∀ j f, d.fields[j]? = some f →
-          sl'.getD j .ph = sl.getD j .ph
+          R f (sl.getD j .ph) (sl'.getD j .ph)
           ∨ (sl'.getD j .ph = freshVal f
               ∧ dumpSlot S f (hidden f j cur) (selectedInGroup f j cur) (sl.getD j .ph) = .ok []))
       ∧ dumpVal S (.msg c sl' true unk cur) = .ok bs := by
@@ -514,7 +529,7 @@ theorem roundtrip_of_steps (S : Schema) (c : Nat) (d : MsgD) (hd : S[c]? = some 
     let rec0 : Loader := loadInto S bs.length
     let st0 : MState := { slots := d.fields.map fun f => if f.optional then Val.none else Val.ph,
                           onWire := true, unknown := [], cur := List.replicate d.nGroups Option.none }
-    have hgi0 : GI S d sl cur 0 st0 := by
+    have hgi0 : GI S d R sl cur 0 st0 := by
       refine ⟨by simp [st0], by simp [st0], rfl, ?_, fun j f hj _ => by omega, ?_⟩
       · intro j f _ hf; exact getD_freshSlots d.fields j f hf
       · intro g hg
@@ -523,7 +538,7 @@ theorem roundtrip_of_steps (S : Schema) (c : Nat) (d : MsgD) (hd : S[c]? = some 
         rw [this]
         cases cur.getD g Option.none <;> simp
     obtain ⟨pfs, st', hp, hj, hfold, hgi, hunk', how'⟩ :=
-      slots_fold S rec0 d sl cur hm (hsteps rec0) sl 0 st0 body (by simp) hgi0 hbody
+      slots_fold S rec0 d R sl cur hm hsteps sl 0 st0 body (by simp) hgi0 hbody
         (by rw [← hbs] at hblen; simp only [List.length_append] at hblen; omega)
     -- all records, in order
     have hall : ∀ pf ∈ pfs ++ upfs, Parsed pf := by
@@ -573,8 +588,9 @@ theorem roundtrip_of_steps (S : Schema) (c : Nat) (d : MsgD) (hd : S[c]? = some 
         by_contra hc
         rw [hn] at hc
         rw [List.getElem?_eq_none (by omega)] at hf; simp at hf
-      have := hgi.done j f (by simpa using hjl) hf
-      exact this
+      rcases hgi.done j f (by simpa using hjl) hf with h1 | h1
+      · exact Or.inl h1.1
+      · exact Or.inr h1
     · -- re-encoding
       rw [dumpVal_msg, hfo]
       have : dumpSlots S d.fields cur 0 st'.slots = dumpSlots S d.fields cur 0 sl := by
@@ -584,7 +600,7 @@ theorem roundtrip_of_steps (S : Schema) (c : Nat) (d : MsgD) (hd : S[c]? = some 
           simp only [Nat.zero_add] at hf ⊢
           have hjl' : j < sl.length := by rw [hgi.len, ← hn] at hjl; exact hjl
           rcases hgi.done j f (by simpa using hjl') hf with h1 | ⟨h1, h2⟩
-          · rw [h1]
+          · exact h1.2.1
           · rw [h1, h2]
             -- the unset default of a slot that emitted nothing emits nothing either
             unfold freshVal
